@@ -39,3 +39,14 @@ pub fn use_rlp_hash_for_tx_hash(block_number: u64) -> bool {
         _ => true,
     }
 }
+
+/// Verification hook: (prague mainnet, prague signet, rlp-hash mainnet, rlp-hash signet).
+#[cfg(feature = "verif")]
+pub fn verif_fork_heights() -> (u64, u64, u64, u64) {
+    (
+        PRAGUE_ACTIVATION_HEIGHT_MAINNET,
+        PRAGUE_ACTIVATION_HEIGHT_SIGNET,
+        RLP_HASH_ACTIVATION_HEIGHT_MAINNET,
+        RLP_HASH_ACTIVATION_HEIGHT_SIGNET,
+    )
+}
